@@ -95,7 +95,7 @@ def judge(o, go, m):
         return known or "violation", "second Marshal gives another JSON value: %s vs %s" % (go["text"][:200], go["rt_text"][:200])
     if not facts.get("order") and not go.get("rt_equal"):
         return known or "violation", "second Marshal is not byte-identical although no PropertyOrder is set"
-    if go.get("verdicts") is not None and go["verdicts"][0] == "resolved" and go.get("verdicts") != go.get("rt_verdicts"):
+    if go.get("verdicts") is not None and go.get("verdicts") != go.get("rt_verdicts"):
         return known or "violation", "verdicts change over the round trip: %r vs %r" % (go.get("verdicts"), go.get("rt_verdicts"))
     if mo.get("rt") == "ok" and not same_ordered(from_tagged(mo["rt_value"]), rval) and not facts.get("order"):
         return known or "violation", "round-tripped value: real package %s, model %r" % (go["rt_text"][:200], from_tagged(mo["rt_value"]))
